@@ -349,9 +349,9 @@ func FuzzArgvCase(r *rand.Rand, name string) *Case {
 }
 
 const methodSetBase = `
-type A struct { V int; Kids []A; P *A; N NA; Tags []string }
+type A struct { V int; Kids []A; P *A; N NA; Tags []string; Ns []NA }
 type NA struct{ X int }
-type B struct { V int; Kids []B; P *B; N NB; Tags []string; Extra string }
+type B struct { V int; Kids []B; P *B; N NB; Tags []string; Extra string; Ns []NB }
 type NB struct{ X int }
 type Ctx struct{ ID string }
 func NewB() B { return B{Extra: "new"} }
@@ -361,6 +361,9 @@ func StampP(a *A) string { return "p" }
 func FailN(n NA) (NB, error) { return NB{X: n.X}, nil }
 // goverter:context c
 func CtxN(n NA, c Ctx) NB { return NB{X: n.X} }
+// goverter:context c
+func VarCtx(c Ctx, ns ...NA) []NB { return make([]NB, len(ns)) }
+func VarPlain(ns ...NA) []NB { return make([]NB, len(ns)) }
 `
 
 // FuzzMethodSetCase: a converter with 2-4 methods over one recursive type family in pointer / value / container / update
@@ -373,7 +376,7 @@ func FuzzMethodSetCase(r *rand.Rand, name string) *Case {
 	}
 	mlines := []string{"ignore Extra", "ignore Extra Tags", "map V Extra", "ignoreMissing", "matchIgnoreCase", "default NewB", "default NewPB", "autoMap N", "autoMap P", "map . Extra | Stamp", "map . Extra | StampP",
 		"map N.X V", "map P.V V", "useZeroValueOnPointerInconsistency", "skipCopySameType", "update:ignoreZeroValueField", "default:update", "ignoreUnexported", "map Kids Kids", "ignore Kids", "ignore P", "wrapErrors", "context ctx"}
-	clines := []string{"ignoreMissing", "skipCopySameType", "useZeroValueOnPointerInconsistency", "extend FailN", "extend CtxN", "wrapErrors", "matchIgnoreCase", "update:ignoreZeroValueField:struct", "default:update", "output:format function"}
+	clines := []string{"ignoreMissing", "skipCopySameType", "useZeroValueOnPointerInconsistency", "extend FailN", "extend CtxN", "extend VarCtx", "extend VarPlain", "wrapErrors", "matchIgnoreCase", "update:ignoreZeroValueField:struct", "default:update", "output:format function"}
 	var sb strings.Builder
 	sb.WriteString("package p\n" + methodSetBase + "\n// goverter:converter\n")
 	for _, l := range clines {
